@@ -52,6 +52,33 @@ def handle (st : DState) (kw : String) (toks : List Nat) : DState × String :=
       (st, match Agg.aggregate srcs with
         | none => "none"
         | some r => "ok " ++ show_ (aggResultToks r))
+  | "registry" =>
+    match run (pair (pair (list unpubEntry) (list firstParty)) (list (pair nat optNat))) toks with
+    | none => (st, "bad-case")
+    | some ((lock, pkgs), pe) =>
+      -- order of the real command: go online (unpublished entries) first, then the consistency check
+      (st, match Reg.importUnpublished lock pkgs with
+        | .refused n => "refused " ++ show_ [n]
+        | .ok es =>
+          let errs := Reg.checkAuditAs pe pkgs
+          if !errs.isEmpty then "audit-as-errors " ++ show_ [errs.length]
+          else "ok " ++ show_ (es.length :: es.flatMap (fun e => [e.name, e.version, e.auditedAs, b2n e.fresh])))
+  | "suggest" =>
+    match run (pair (pair (pair nat optNat) (list nat)) (list sugFailure)) toks with
+    | none => (st, "bad-case")
+    | some (((target, pubKey), gitVers), fails) =>
+      -- `pubKey`: none = not a git revision; some k = optKey of the nearest published version
+      let published : Option (Option Nat) := pubKey.map (fun k => if k = 0 then none else some (k - 1))
+      -- offline `version_has_sources`: the root, every plain version, and the package's own git revision
+      let hasSources : Option Nat → Bool := fun v =>
+        match v with
+        | none => true
+        | some x => !gitVers.contains x || x == target
+      (st, match Sug.reachable hasSources fails with
+        | none => "ok 0"
+        | some (fr, ft) =>
+          let cs := Sug.candidates fr (Sug.gitRewrite target published fr ft).1
+          "ok " ++ show_ (cs.length :: cs.flatMap (fun c => [optKey c.1, c.2])))
   | "world" =>
     match run world toks with
     | none => (st, "bad-case")
